@@ -355,7 +355,9 @@ Definition limit_one (v : variant) (d : desc) (ic : icred) : list wcred :=
         else [{| w_key := id_key v i c; w_src := i; w_cred := c |}]
       else
       let pred := existsb f_pred (k_fields k) in
-      if k_limit k && negb (pred || subject_is_issuer c) then []
+      (* supportsSelectiveDisclosure: a BBS+ credential (proof type 3) is limited by deriving a proof that reveals
+         the template + requested members: at the level of members the same credential as the field copy *)
+      if k_limit k && negb (pred || subject_is_issuer c || memN 3 (c_proofs c)) then []
       else if k_limit k || pred then [{| w_key := KTmp (d_id d) i; w_src := i; w_cred := limited_cred k c |}]
       else [{| w_key := id_key v i c; w_src := i; w_cred := c |}]
   end.
